@@ -69,6 +69,14 @@ type ErrT struct{ msg string }
 
 func (e ErrT) Error() string { return e.msg }
 
+type ErrS string
+
+func (e ErrS) Error() string { return "ErrS:" + string(e) }
+
+type FmtS string
+
+func (f FmtS) Format(st fmt.State, verb rune) { fmt.Fprint(st, "FmtS!") }
+
 type IntSlice []int
 
 type BytesT []byte
@@ -212,8 +220,28 @@ def build(rng, scale=1):
     # operands of defined types (the rewritten expression must keep its type)
     for c in ["fmt.Sprint(col)", 'fmt.Sprintf("%s", col)', 'fmt.Sprintf("%v", col)', "fmt.Sprint(et)", 'fmt.Sprintf("%v", Color(s))']:
         g.add("sprint-defined", "col := Color(s)\n\tet := ErrT{t}\n\t_, _ = col, et\n\tvar r string = %s\n\treturn out(r)" % c, PRE_STR)
+    # ... and contexts in which a replacement of another type still compiles but is observable
+    for c in ["fmt.Sprint(col)", 'fmt.Sprintf("%s", col)', 'fmt.Sprintf("%v", es)', "fmt.Sprint(es)", "fmt.Sprint(fs)", 'fmt.Sprintf("%s", fs)', "fmt.Sprint(Color(e.Fs()))"]:
+        g.add("sprint-defined-any", "col, es, fs := Color(s), ErrS(t), FmtS(s)\n\t_, _, _ = col, es, fs\n\tvar a any = %s\n\t_, isStr := a.(string)\n\treturn out(isStr, a)" % c, PRE_STR)
+        g.add("sprint-defined-len", "col, es, fs := Color(s), ErrS(t), FmtS(s)\n\t_, _, _ = col, es, fs\n\tr := %s\n\treturn out(len(r), fmt.Sprintf(\"%%T\", r))" % c, PRE_STR)
     for c in ["len(col) == 0", "len(col) != 0", 'string(bt) == ""', "len(string(bt))", "col[:]", "bt[:]", "0 == len(col)"]:
         g.add("idiom-defined", "col := Color(s)\n\tbt := BytesT(e.B0)\n\t_, _ = col, bt\n\tr := %s\n\treturn out(r)" % c, PRE_STR)
+    # ---- paramTypeCombine: the proposed signature must declare the same function type ------
+    for sig, call, body in [
+            ("(a int, b int) int", "§_h(x, y)", "a - b"),
+            ("(a, b int, c int) (n int, m int)", "§_h(x, y, 3)", "a - b, c"),
+            ("(dst []int, more ...int) int", "§_h(e.Xs, x, y), §_h(e.Xs)", "len(dst)*10 + len(more)"),
+            ("(dst []int, more []int, rest ...int) int", "§_h(e.Xs, e.Ys, x, y)", "len(dst) + len(more)*10 + len(rest)*100"),
+            ("(a any, b interface{}) string", "§_h(x, s)", "out(a, b)"),
+            ("(a [2]int, b [2]int, c []int) int", "§_h([2]int{x, y}, [2]int{y, x}, e.Xs)", "a[0] - b[0] + len(c)"),
+            ("(f func(int) int, g func(int) int) int", "§_h(one, one)", "f(1) + g(2)"),
+            ("(p *Rec, q *Rec) (int, int)", "§_h(e.P, e.Q)", "p.A, q.B"),
+            ("(a uint8, b byte) int", "§_h(e.U8, e.U9)", "int(a) - int(b)"),
+            ("(ch chan<- int, ch2 chan<- int) int", "§_h(nil, nil)", "cap(ch) + cap(ch2)"),
+            ("[T any](a T, b T) T", "§_h(x, y), §_h(s, t)", "b"),
+            ("[T any](a []T, b ...T) int", "§_h(e.Xs, x), §_h([]string{s}, t, t)", "len(a) + len(b)*10")]:
+        g.add("paramcombine", "return out(%s)\n}\n\nfunc §_h%s {\n\treturn %s" % (call, sig, body), PRE_INT + PRE_STR)
+    g.add("paramcombine-method", "return out(Color(s).§_h(x, y))\n}\n\nfunc (c Color) §_h(a int, b int) string {\n\treturn out(c, a-b)", PRE_INT + PRE_STR)
     # ---- valSwap ------------------------------------------------------------------------
     for a, b in [("x", "y"), ("e.I0", "e.I1"), ("e.P.A", "e.P.B"), ("e.Xs[0]", "e.Xs[1]"), ("e.Xs[e.Ti(0)]", "e.Xs[e.Ti(1)]"), ("*p", "*q")]:
         g.add("valswap", "p, q := &x, &y\n\t_, _ = p, q\n\ttmp := %s\n\t%s = %s\n\t%s = tmp\n\treturn out(x, y, e.I0, e.I1, e.P.A, e.P.B, e.Xs)" % (a, a, b, b), PRE_INT)
@@ -238,6 +266,17 @@ def build(rng, scale=1):
     # ---- newDeref -----------------------------------------------------------------------
     for t in ["int", "string", "bool", "float64", "complex128", "uint8", "rune", "Rec", "*Rec", "[]int", "[2]int", "map[string]int", "func()", "chan int", "any", "error", "struct{ a int }", "uintptr", "time.Duration", "Str"]:
         g.add("newderef", "r := *new(%s)\n\treturn out(r)" % t)
+    # the same proposals inside statement headers, where a composite literal needs parentheses
+    for hdr in ["if *new(Str) == st {\n\t\treturn \"eq\"\n\t}", "for *new(Str) == st {\n\t\tbreak\n\t}", "switch *new(Str) {\n\tcase st:\n\t\treturn \"case\"\n\t}",
+                "if v := *new(Str); v == st {\n\t\treturn \"eq\"\n\t}", "if *new(int) == x {\n\t\treturn \"zero\"\n\t}",
+                "switch v := *new(Str); v {\n\tcase st:\n\t\treturn \"case\"\n\t}", "if one(len(out(*new(Str)))) > 0 {\n\t\treturn \"call\"\n\t}"]:
+        g.add("newderef-header", "st := Str{s}\n\t_ = st\n\t%s\n\treturn out(x)" % hdr, PRE_INT + PRE_STR)
+    # ---- typeUnparen: parentheses that are (not) redundant -------------------------------------
+    for stmt in ["r := (<-chan int)(nil)", "r := (chan<- int)(nil)", "r := (chan int)(nil)", "var r chan (<-chan int)", "var r chan ((<-chan int))", "var r chan (((<-chan int)))", "var r chan<- (chan int)",
+                 "var r chan<- ((chan int))", "var r <-chan ((chan<- int))", "var r chan (chan<- int)", "r := (*Rec)(nil)", "r := (*(Rec))(nil)", "r := (func() int)(nil)", "r := (func())(nil)", "r := ([]int)(nil)",
+                 "r := [](int){x}", "r := map[(string)](int){s: x}", "var r func((int)) (string)", "var r [](<-chan int)", "var r []((<-chan (int)))", "r := (map[string]int)(nil)", "var r *(*(int))",
+                 "r := (interface{})(x)", "r := (struct{ a int })(struct{ a int }{x})", "var r (<-chan int)", "r := [2](chan<- (<-chan int)){}"]:
+        g.add("typeunparen", "%s\n\treturn out(fmt.Sprintf(\"%%T\", r))" % stmt, PRE_INT + PRE_STR)
     # ---- timeExprSimplify ---------------------------------------------------------------
     for c in ["e.T0.Unix() / 1000", "e.T0.UnixNano() * 1000", "tp.Unix() / 1000"]:
         g.add("time", "tp := &e.T0\n\t_ = tp\n\tr := %s\n\treturn out(r)" % c)
@@ -251,7 +290,7 @@ def render(items):
     for k, (fam, body) in enumerate(items):
         name = "S%04d" % k
         names.append((name, fam))
-        out.append("// %s %s\nfunc %s(e *Env) string {\n\t%s\n}\n" % (name, fam, name, body))
+        out.append("// %s %s\nfunc %s(e *Env) string {\n\t%s\n}\n" % (name, fam, name, body.replace("§", name)))
     return "\n".join(out), names
 
 
@@ -267,6 +306,23 @@ def build12(rng, scale=1):
     # badCond: always false
     for a, lo, hi in [("x", "1", "5"), ("e.I0", "-3", "17"), ("e.Xs[0]", "0", "1"), ("e.P.A", "2", "010"), ("x*2", "1", "3"), ("f", "1.0", "5.0"), ("e.F0", "0.5", "1.5"), ("mf", "1", "2")]:
         g.add("badcond", "mf := MyF(e.F0)\n\t_ = mf\n\tr := %s < %s && %s > %s\n\treturn out(r)" % (a, lo, a, hi), PRE_INT + PRE_FLT)
+    # adjacent and equal bounds, operands whose constant bounds keep integer kind although the operand is not an
+    # integer (untyped float constants), and operands of type-parameter type (claim inside a generic helper S..._h)
+    for a, lo, hi in [("x", "5", "6"), ("x", "5", "5"), ("f", "5", "6"), ("f", "5", "5"), ("mf", "5", "6"), ("e.F0", "0", "1"), ("u", "5", "6")]:
+        g.add("badcond-adjacent", "mf := MyF(e.F0)\n\tu := e.U8\n\t_, _ = mf, u\n\tr := %s < %s && %s > %s\n\treturn out(r)" % (a, hi, a, lo), PRE_INT + PRE_FLT)
+        g.add("badcond-adjacent", "mf := MyF(e.F0)\n\tu := e.U8\n\t_, _ = mf, u\n\tr := %s < %s && %s > %s\n\treturn out(r)" % (a, lo, a, hi), PRE_INT + PRE_FLT)
+    for cdecl, lo, hi in [("const k = 5.5", "5", "6"), ("const k = 5.5", "6", "5"), ("const k = 5", "5", "6"), ("const k = 'a'", "96", "98"), ("const k float64 = 5.5", "5", "6"), ("const k = 1 << 3", "7", "9"), ("const k = 0.5", "0", "1"), ("const k = 7.0", "9", "5")]:
+        g.add("badcond-const", "%s\n\tr := k < %s && k > %s\n\treturn out(r)" % (cdecl, hi, lo))
+    for constraint, call_args, lo, hi in [
+            ("~int | ~float64", ["e.F0", "e.I0", "MyF(e.F0) / 2", "5.5", "0.5", "6"], "5", "6"),
+            ("~int | ~float64", ["e.F0", "e.I0", "5.5"], "6", "5"),
+            ("~int | ~float64", ["e.F0", "e.I1", "5.0"], "5", "5"),
+            ("~int | ~int8", ["e.I0", "e.I1", "5", "int8(e.I0 % 100)"], "5", "6"),
+            ("~float32 | ~float64", ["e.F0", "float32(e.F1)", "5.5"], "5", "6"),
+            ("~uint8 | ~float32", ["e.U8", "float32(e.F0)", "float32(0.5)"], "0", "1"),
+            ("~int | ~float64", ["e.F0", "e.I0", "1.5"], "1", "3")]:
+        g.add("badcond-typeparam", "return out(%s)\n}\n\nfunc §_h[T %s](x T) bool {\n\treturn x < %s && x > %s" % (
+            ", ".join("§_h(%s)" % a for a in call_args), constraint, hi, lo))
     g.add("badcond-impure", "r := e.Fi()*10 < 15 && e.Fi()*10 > 16\n\treturn out(r)")
     g.add("badcond-impure", "r := e.Ti(e.Fi()) < 2 && e.Ti(e.Fi()) > 1\n\treturn out(r)")
     g.add("badcond-impure", "ch := make(chan int, 2)\n\tch <- 1\n\tch <- 9\n\tr := <-ch < 2 && <-ch > 5\n\treturn out(r)")
